@@ -204,3 +204,82 @@ def indent_replay(case):
     c = case['case']
     return 'expand(%r, syntax %s) ->\n%s\nexpected lines (model) %r' % (
         c['abbr'], c['syntax'], emmet.expand(c['abbr'], {'syntax': c['syntax'], 'options': {'output.indent': c['indent']}}), c.get('expected'))
+
+
+# ----------------------------------------------------------------------------------------------------------------------
+# tabstops: the numbered fields AbbrPrint.tla prints (PrintedF / IndentPrintedF) against expand() with a marking callback
+
+import re
+_FIELD = re.compile(r'\$\{(\d+)(?::([^}]*))?\}')
+
+
+def _mark(index, placeholder, **kw):
+    return '${%d:%s}' % (index, placeholder) if placeholder else '${%d}' % index
+
+
+def _stops(text):
+    return [[int(m.group(1)), m.group(2) or ''] for m in _FIELD.finditer(text)]
+
+
+def _tabstop_chunk(items):
+    emmet = common.import_emmet()
+    bad = []
+    for s, model, syns in items:
+        for syn in syns:
+            case = {'abbr': s, 'syntax': syn}
+            o = {'output.field': _mark}
+            if syn == 'html':
+                o['output.format'] = False
+            try:
+                with common.Alarm(10):
+                    text = emmet.expand(s, {'syntax': syn, 'options': o})
+            except Exception as ex:
+                bad.append(('expand raised', dict(case, exception=type(ex).__name__, site=common.innermost_emmet_frame(ex))))
+                continue
+            exp, got = _stops(model[syn]), _stops(text)
+            if exp != got:
+                bad.append(('tabstop-numbering (grammar)', dict(case, expected=exp, actual=got, output=text, model_output=model[syn])))
+    return bad
+
+
+def tabstop_differential(out, name, consts, per_vector=2):
+    c = dict(consts, RepeatLimit=UNLIMITED, SelfClosingStyle='html')
+    r = common.run_tlc('AbbrGrammar', constants=c, timeout=3000, heap='8g')
+    if r.violated:
+        out.add_tlc(name, r)
+        out.violation('spec-invariant %s violated in the model' % r.violated, {'instance': name, 'tlc': r.error[:3000]})
+        return
+    vecs = {}
+    for v in r.vectors():
+        vecs.setdefault(v['s'], v)
+    r.tagged = {}
+    if r.mode == 'bfs':
+        out.exhaustive = r.exhaustive if out.exhaustive is None else (out.exhaustive and r.exhaustive)
+    syns = ('html', 'pug', 'haml', 'slim')
+    items = []
+    for s, v in vecs.items():
+        h = zlib.crc32(s.encode()) + out.seed
+        rows = sorted(set(syns[(h + 3 * j) % 4] for j in range(per_vector)))
+        items.append((s, v['marked'], rows))
+        out.evaluations += len(rows)
+        if len(_stops(v['marked']['html'])) >= 2:
+            for syn in rows:
+                out.distinct.add(('grammar', s, syn))
+    bad = common.pool_map(_tabstop_chunk, items, chunk=1500)
+    out.add_tlc(name, r, vectors=len(vecs))
+    out.traces += len(items)
+    for what, case in bad:
+        out.violation(what, case)
+    ks = sorted(vecs, key=lambda a: zlib.crc32(a.encode()))
+    for a in ks[:1]:
+        out.sample({'abbr': a, 'model_tabstops': {k: _stops(vecs[a]['marked'][k]) for k in syns}})
+
+
+def tabstop_replay(case):
+    emmet = common.import_emmet()
+    c = case['case']
+    o = {'output.field': _mark}
+    if c['syntax'] == 'html':
+        o['output.format'] = False
+    return 'expand(%r, syntax %s) ->\n%s\nexpected tabstops (model) %r' % (
+        c['abbr'], c['syntax'], emmet.expand(c['abbr'], {'syntax': c['syntax'], 'options': o}), c.get('expected'))
